@@ -30,6 +30,7 @@
         (get-output-bytevector out))
        ((>= col (- max-col 3))
         (write-bytevector (bytevector-copy buf 0 col) out)
+        (write-bytevector separator out)
         (lp i 0))
        (else
         (let ((c (bytevector-u8-ref bv i)))
